@@ -387,7 +387,7 @@ def jac_stock(sc):
             keep = np.array([i for i in range(J.shape[0]) if (i - dae.n) not in skip], dtype=int)
             same_pat = all({e for e in patA[nm] if not (nm[0] == "g" and e[0] in skip)} == {e for e in pat1[nm] if not (nm[0] == "g" and e[0] in skip)}
                            for nm in ("fx", "fy", "gx", "gy"))
-            same_val = J1.shape == J.shape and bool(np.all(np.abs(J1[keep] - J[keep]) <= 1e-12 * (1.0 + np.abs(J[keep]))))
+            same_val = J1.shape == J.shape and bool(np.all(np.abs(J1[keep] - J[keep]) <= 1e-10 * (1.0 + np.abs(J[keep]))))     # sums of many terms in another order
             rec["modes_agree"] = bool(same_pat and same_val)
             if not rec["modes_agree"]:
                 diff = []
